@@ -57,7 +57,9 @@ class RegisterAllocatorLivenessBlockNaive(BlockNaiveAllocator):
                 f"Cannot register allocate func with {len(func.body.blocks)} blocks."
             )
 
-        preallocated = RegisterAllocatableOperation.all_used_registers(func.body)
+        preallocated = RegisterAllocatableOperation.all_used_registers(
+            func.body
+        ) | RegisterAllocatableOperation.all_preallocated_registers(func.body)
         excluded = RegisterAllocatableOperation.all_excluded_registers(func.body)
 
         for pa_reg in preallocated | excluded:
